@@ -16,15 +16,16 @@ for l in open(os.path.join(root, 'findings/known.jsonl')):
         cf = d.get('cases_file')
         if cf and os.path.exists(os.path.join(root, 'findings', cf)): n = sum(1 for _ in open(os.path.join(root, 'findings', cf)))
         open_f.append((d['property'], d['finding'], d['title'], n or len(d.get('cases', []))))
-fx = ['| property | commit | what failed |', '|---|---|---|'] + [f'| {p} | `{c}` | {t.replace("|", "\\|")} |' for p, c, t in sorted(fixed)]
-of = ['| property | finding | what fails | cases |', '|---|---|---|---|'] + [f'| {p} | {f} | {t.replace("|", "\\|")} | {n} |' for p, f, t, n in sorted(open_f)]
+def esc(t): return t.replace("|", "\\|").replace("\n", " ")
+fx = ['| property | commit | what failed |', '|---|---|---|'] + ['| %s | `%s` | %s |' % (p, c, esc(t)) for p, c, t in sorted(fixed)]
+of = ['| property | finding | what fails | cases |', '|---|---|---|---|'] + ['| %s | %s | %s | %d |' % (p, f, esc(t), n) for p, f, t, n in sorted(open_f)]
 rows = ['| seeded change | property | what it needs to manifest | check run | detected | first violating case |', '|---|---|---|---|---|---|']
 for d in sorted(glob.glob(os.path.join(root, 'seeded', '*'))):
     mf = os.path.join(d, 'meta.json')
     if not os.path.exists(mf): continue
     m = json.load(open(mf)); det = {}
     if os.path.exists(os.path.join(d, 'detection.json')): det = json.load(open(os.path.join(d, 'detection.json')))
-    need = (m.get('needs_to_manifest') or '')[:160].replace('|', '\\|').replace('\n', ' ')
+    need = esc((m.get('needs_to_manifest') or '')[:160])
     rows.append(f"| {os.path.basename(d)} | {m.get('property')} | {need} | {det.get('check','-')} {det.get('tier','')} | {('yes' if det.get('detected') else 'NO') if det else 'not run yet'} | {(det.get('first_violation_case') or '')[:90]} |")
 def put(tag, lines):
     global design
